@@ -84,6 +84,68 @@ def install():
     if not _wrap(S.EventBus, 'process_event', mk_proc):
         missing.append('EventBus.process_event')
 
+    def mk_wal(orig):
+        @functools.wraps(orig)
+        async def _default_wal_handler(self, event):
+            rec = _rec()
+            if rec is not None:
+                rec.wal_cur[self.name] = rec.eid(event)
+            return await orig(self, event)
+        return _default_wal_handler
+
+    if not _wrap(S.EventBus, '_default_wal_handler', mk_wal):
+        missing.append('EventBus._default_wal_handler')
+
+
+class _FakeWalFile:
+    """in-process stand-in for anyio's AsyncFile: same suspension points (one hop per call), deterministic, with fault injection"""
+
+    def __init__(self, rec, bus):
+        self.rec, self.bus = rec, bus
+
+    async def __aenter__(self):
+        return self
+
+    async def __aexit__(self, *a):
+        await asyncio.sleep(0)
+        return False
+
+    async def write(self, text):
+        await asyncio.sleep(0)
+        rec = self.rec
+        n = rec.wal_count[self.bus] = rec.wal_count.get(self.bus, 0)
+        e = 0
+        try:
+            import json as _json
+            e = rec.eid_of.get(_json.loads(text).get('event_id'), 0)
+        except Exception:
+            pass
+        if 'write:%d' % rec.wal_opened[self.bus] in rec.wal_faults.get(self.bus, ()):
+            if engine.REC is rec:
+                rec.log('WalFault', b=self.bus, e=e, at='write')
+            raise OSError(28, 'No space left on device (injected)')
+        rec.wal_lines[self.bus].append(text)
+        if engine.REC is rec:
+            rec.log('Wal', b=self.bus, e=e)
+        return len(text)
+
+
+_real_open_file = None
+
+
+async def _fake_open_file(path, mode='r', *a, **kw):
+    rec = _rec()
+    if rec is None:
+        return await _real_open_file(path, mode, *a, **kw)
+    bus = os.path.basename(str(path)).rsplit('.', 1)[0]
+    await asyncio.sleep(0)
+    rec.wal_opened[bus] = rec.wal_opened.get(bus, 0) + 1
+    if 'open:%d' % rec.wal_opened[bus] in rec.wal_faults.get(bus, ()):
+        if engine.REC is rec:
+            rec.log('WalFault', b=bus, e=rec.wal_cur.get(bus, 0), at='open')
+        raise PermissionError(13, 'Permission denied (injected)')
+    return _FakeWalFile(rec, bus)
+
 
 def _project(rec):
     lock = S._global_eventbus_lock
@@ -98,6 +160,12 @@ def _project(rec):
 
 
 def attach(rec):
+    global _real_open_file
     rec.par_owner = {}
+    rec.wal_opened = {}
+    rec.wal_cur = {}
+    if _real_open_file is None and hasattr(S, 'anyio'):
+        _real_open_file = S.anyio.open_file
+        S.anyio.open_file = _fake_open_file
     rec.probe_missing = list(missing)
     rec.extra = {'project': _project}
